@@ -67,6 +67,7 @@ type Profile struct {
 	FlushNever    bool
 	NoHuge        bool
 	RemoveHeavy   bool
+	NoPrimLimit   bool // never stop a primary GC cycle midway (avoid-class of finding C04-F1)
 }
 
 var lowUse = []int{1, 25, 50, 74, 85, 100}
@@ -132,6 +133,9 @@ func GenOps(r *rand.Rand, p Profile) []Op {
 					lim = 1 + r.IntN(12)
 				}
 				if r.IntN(2) == 0 {
+					if p.NoPrimLimit {
+						lim = 0
+					}
 					ops = append(ops, Op{Kind: "gcp", A: lowUse[r.IntN(len(lowUse))], B: lim})
 				} else {
 					ops = append(ops, Op{Kind: "gci", A: r.IntN(2), B: lim})
@@ -207,6 +211,10 @@ type Runner struct {
 	dead       bool
 	c          *consState
 	dirty      map[int]bool
+	LastGCErr  error
+	unmarkedPossible bool
+	TrigF1     bool // a relocating primary GC cycle ran while superseded records could still be unmarked
+	hist       map[string]map[string]bool
 }
 
 func NewRunner(env *core.Env, u gen.Universe, rt *hookrt.RT, res *core.CaseResult, opt Opts) *Runner {
@@ -241,6 +249,41 @@ func (r *Runner) Open() bool {
 }
 
 func eqVal(a, b []byte) bool { return bytes.Equal(a, b) }
+
+func (r *Runner) remember(d, v []byte) {
+	if r.hist == nil {
+		r.hist = map[string]map[string]bool{}
+	}
+	m := r.hist[string(d)]
+	if m == nil {
+		m = map[string]bool{}
+		r.hist[string(d)] = m
+	}
+	m[string(v)] = true
+}
+
+// classify names the symptom class of a content mismatch: the narrow
+// signatures known findings are matched against.
+func (r *Runner) classify(d []byte, found bool, got []byte, want []byte, ok bool) string {
+	cls := "wrong-value"
+	switch {
+	case found && !ok:
+		cls = "absent-key-found"
+		if r.hist[string(d)][string(got)] {
+			cls = "removed-key-resurrected-with-own-old-value"
+		}
+	case !found && ok:
+		cls = "present-key-lost"
+	case found && ok:
+		if r.hist[string(d)][string(got)] {
+			cls = "own-older-value"
+		}
+	}
+	if r.TrigF1 {
+		cls += "+after-unmarked-relocation"
+	}
+	return cls
+}
 
 func short(b []byte) string {
 	if len(b) > 24 {
@@ -289,6 +332,7 @@ func (r *Runner) Exec(i int, o Op) {
 			v := r.val(o)
 			_, had := r.M.Get(k.Digest)
 			wantExists := r.M.Put(k.Digest, v)
+			r.remember(k.Digest, v)
 			err := r.S.Put(fresh(k.Raw), fresh(v))
 			r.Res.Add("op_put", 1)
 			if r.dirty == nil {
@@ -322,9 +366,9 @@ func (r *Runner) Exec(i int, o Op) {
 			if err != nil {
 				r.viol("get-error", "get-error", nil, "Get(%x) failed: %v", k.Digest, err)
 			} else if found != ok {
-				r.viol("get-found", fmt.Sprintf("get-found-%v-want-%v", found, ok), nil, "Get(%x) found=%v, model says %v (model value %s)", k.Digest, found, ok, short(want))
+				r.viol("get-found", r.classify(k.Digest, found, got, want, ok), nil, "Get(%x) found=%v, model says %v (model value %s)", k.Digest, found, ok, short(want))
 			} else if ok && !eqVal(got, want) {
-				r.viol("get-value", "get-value", nil, "Get(%x) = %s, model has %s", k.Digest, short(got), short(want))
+				r.viol("get-value", r.classify(k.Digest, found, got, want, ok), nil, "Get(%x) = %s, model has %s", k.Digest, short(got), short(want))
 			}
 		case "has":
 			_, ok := r.M.Get(k.Digest)
@@ -434,11 +478,12 @@ func (r *Runner) Probe(why string) {
 			continue
 		}
 		if found != ok {
-			r.viol("get-found", fmt.Sprintf("get-found-%v-want-%v@%s", found, ok, why), nil, "[%s] Get(%x) found=%v, model says %v", why, k.Digest, found, ok)
+			r.viol("get-found", r.classify(k.Digest, found, got, want, ok), nil, "[%s] Get(%x) found=%v, model says %v", why, k.Digest, found, ok)
 			continue
 		}
 		if ok && !eqVal(got, want) {
-			r.viol("get-value", "get-value@"+why, nil, "[%s] Get(%x) = %s, model has %s", why, k.Digest, short(got), short(want))
+			r.viol("get-value", r.classify(k.Digest, found, got, want, ok), nil, "[%s] Get(%x) = %s, model has %s", why, k.Digest, short(got), short(want))
+			continue
 		}
 		has, err := r.S.Has(fresh(k.Raw))
 		if err != nil || has != ok {
@@ -478,13 +523,29 @@ func (r *Runner) gcPrimary(o Op) {
 	ctx, stop := r.limitCtx(o.B, "mh.gc.")
 	defer stop()
 	before := r.RT.Counts()
+	// structural trigger of finding C04-F1: superseded records may still be unmarked
+	// when files are reaped (pools not flushed, or a left-over .gc batch hides newer entries)
+	unmarkedPossible := r.S.Index().OutstandingWork()+mp.OutstandingWork()+r.S.VerifFreeList().OutstandingWork() > 0
+	if _, e := os.Stat(r.Env.IndexPath + ".free.gc"); e == nil {
+		unmarkedPossible = true
+	}
+	if unmarkedPossible {
+		r.unmarkedPossible = true // sticky: a dropped or delayed freelist entry leaves a stale record that looks live
+	}
 	_, err := mp.GC(ctx, int64(o.A))
+	if r.unmarkedPossible && r.RT.Count("mh.gc.relocate.after-put") > before["mh.gc.relocate.after-put"] {
+		r.TrigF1 = true
+		r.Res.Add("trigger_F1_cycles", 1)
+	}
 	r.Res.Add("gc_primary_cycles", 1)
 	if err != nil {
 		if o.B > 0 && errors.Is(err, context.DeadlineExceeded) {
 			r.Res.Add("gc_primary_stopped_midway", 1)
 		} else {
-			r.viol("gc-error", "gcp-error", nil, "primary GC cycle (lowuse %d) failed: %v", o.A, err)
+			// a failing cycle is logged and retried by the collector; it is only a
+			// violation if the store's contents change, which the probes decide
+			r.Res.Add("gc_primary_cycle_errors", 1)
+			r.LastGCErr = err
 		}
 	}
 	r.gcStats(before)
@@ -548,7 +609,8 @@ func (r *Runner) gcIndex(o Op) {
 		if o.B > 0 && errors.Is(err, context.DeadlineExceeded) {
 			r.Res.Add("gc_index_stopped_midway", 1)
 		} else {
-			r.viol("gc-error", "gci-error", nil, "index GC cycle failed: %v", err)
+			r.Res.Add("gc_index_cycle_errors", 1)
+			r.LastGCErr = err
 		}
 	}
 	r.gcStats(before)
